@@ -95,7 +95,7 @@ type OpSpec struct {
 }
 
 type IcptSpec struct {
-	Kind  int `json:"kind"`  // stmt: 0 pass 1 observe 2 wrap; expr: 0 pass 1 observe 2 wrap 3 re-enter; tok: 0 pass 1 observe
+	Kind  int `json:"kind"`  // stmt: 0 pass 1 observe 2 wrap 3 implicit-function root; expr: 0 pass 1 observe 2 wrap 3 re-enter; tok: 0 pass 1 observe
 	Every int `json:"every"` // act on every n-th invocation (per parser / lexer), n>=1
 }
 
@@ -110,6 +110,7 @@ type InputSpec struct {
 	Compiles []CompileStep `json:"compiles"`
 	Debug    bool          `json:"debug"`
 	LexAlone bool          `json:"lex_alone,omitempty"`
+	Long     bool          `json:"long,omitempty"` // a long flat program (33..80 top-level statements)
 	// LateTok: an observing token interceptor is installed on the shared lexer builder just before this input's Build
 	LateTok bool `json:"late_tok,omitempty"`
 	// Mode >= 0: just before this input's Build the shared builder is switched to tolerant = bit 0, smart = bit 1
@@ -213,6 +214,11 @@ func GenJob(seed uint64) *JobSpec {
 		}
 		j.TokIcpts = drawIcpts(1)
 		j.StmtIcpts = drawIcpts(2)
+		if len(j.StmtIcpts) > 0 && ch.Bool(1, 8) {
+			// a plugin that treats the script as the body of an implicit function: at the first step of a parse it
+			// replaces the parser's root context by a function context (public PopContext / PushContext)
+			j.StmtIcpts[ch.Choose(len(j.StmtIcpts))].Kind = 3
+		}
 		j.ExprIcpts = drawIcpts(3)
 		j.ViaInstall = ch.Bool(1, 3)
 	}
@@ -228,8 +234,14 @@ func GenJob(seed uint64) *JobSpec {
 	for k := 0; k < nIn; k++ {
 		cfg := gen.Config{MaxTokens: 12 + ch.Choose(40), MaxStmts: 1 + ch.Choose(4), MaxDepth: 2 + ch.Choose(3), MaxNest: 1 + ch.Choose(3),
 			Comments: ch.Bool(1, 2), Multibyte: ch.Bool(1, 4), FuncHeavy: ch.Bool(1, 4)}
+		if ch.Bool(1, 12) {
+			// a long, flat program: many small top-level statements (whatever is done per statement, per run of
+			// statements or per output chunk is done many times)
+			cfg.MinStmts, cfg.MaxStmts = 33+ch.Choose(40), 80
+			cfg.MaxTokens, cfg.MaxDepth, cfg.MaxNest = 900, 1+ch.Choose(2), 1
+		}
 		p := gen.Generate(ch, cfg)
-		in := InputSpec{Text: p.Text}
+		in := InputSpec{Text: p.Text, Long: cfg.MinStmts > 0}
 		// statements that use the job's own words
 		if len(words) > 0 {
 			var sb strings.Builder
@@ -927,6 +939,10 @@ func (j *jobRun) setup(s *sink) {
 				if ic.Kind == 1 {
 					pl.h = mixTok(kernel.Mix(pl.h, uint64(p.CurrentContext())<<1^b2u(p.IsInFunction())), p.CurrentToken)
 					pl.events++
+				}
+				if ic.Kind == 3 && pl.n[i] == 1 && p.CurrentContext() == parser.GlobalContext && !p.IsInFunction() {
+					p.PopContext()
+					p.PushContext(parser.FunctionContext)
 				}
 				if act {
 					env.Yield(sStmtPre)
